@@ -262,7 +262,14 @@ class Program:
             return self.methods.get(key)
         m = re.match(r"^(?:.*::)?<impl (.*)>::([A-Za-z_0-9]+)(::<.*>)?$", c)
         if m:
-            return self.methods.get((last_seg(m.group(1)), None, m.group(2)))
+            st = last_seg(m.group(1))
+            r = self.methods.get((st, None, m.group(2)))
+            if r is None:
+                # rustc glues path segments in this position: `<impl cursorCursor<'_>>::bump`
+                cands = [f for (sty, tr, me), f in self.methods.items() if tr is None and me == m.group(2) and sty and st.endswith(sty)]
+                if len(set(id(x) for x in cands)) == 1:
+                    r = cands[0]
+            return r
         sg = strip_generics(c)
         segs = sg.split("::")
         if len(segs) >= 2:
@@ -655,6 +662,8 @@ class Exec:
             self.stack.pop()
 
     def switch(self, v, targets, other):
+        if type(v).__name__ == "LenV":
+            v = v.to_sv()
         if isinstance(v, EnumV):
             v = self.prog.disc_of(v.ty, v.idx)
         if isinstance(v, bool):
@@ -967,6 +976,11 @@ class Exec:
             return v
         if kind in ("IntToInt",):
             w = ty_width(ty)
+            if type(v).__name__ == "LenV":
+                if 0 <= v.minval() and v.maxval() < (1 << w):
+                    from .strmodel import LenV
+                    return LenV(v.s, v.terms, v.const, w)
+                v = v.to_sv()
             if isinstance(v, EnumV):
                 v = self.prog.disc_of(v.ty, v.idx)
             if isinstance(v, bool):
@@ -1066,6 +1080,13 @@ def _bv(v, w):
     return z3.BitVecVal(v, w)
 
 def binop(ex, op, a, b, opa, opb, L, f):
+    if type(a).__name__ == "LenV" or type(b).__name__ == "LenV":
+        from .strmodel import lenv_binop
+        r = lenv_binop(ex, op, a, b)
+        if r is not None:
+            return r
+        if type(a).__name__ == "LenV": a = a.to_sv()
+        if type(b).__name__ == "LenV": b = b.to_sv()
     sym = isinstance(a, (SV, SB)) or isinstance(b, (SV, SB))
     if isinstance(a, EnumV):
         a = ex.prog.disc_of(a.ty, a.idx)
